@@ -20,6 +20,7 @@ SCHEMA = {
     "Node._parent_node": "opt ref:Node",
     "Node._edge": "opt ref:Edge",
     "Node.g_pos": "ghost int",
+    "Node.g_owner": "ghost opt ref:Node",
     "Edge._head_node": "opt ref:Node",
     "Edge.length": "opt real",
 }
@@ -27,6 +28,8 @@ SCHEMA = {
 CH = "self._child_nodes"
 H = "self._head_node"
 T = "self._head_node._parent_node"
+D = "self._head_node"
+P = "self._head_node._parent_node"
 
 
 def others_order_preserved(L):
@@ -46,13 +49,13 @@ def reparent_contract(target, X, P, raises=None):
         # the two lists involved satisfy listinv and (when they are different lists) share no element:
         # no node sits in two child lists -- part of the arborescence invariant the callers maintain
         requires=("implies(not isnone({X}) and not isnone({OLDP}), listinv({OL})) and implies(not isnone({P}), listinv({NL})) "
-                  "and implies(not isnone({X}) and not isnone({OLDP}) and not isnone({P}) and {OLDP} != {P}, "
-                  "forall_ref('Node', lambda y: not (isin(y, {OL}) and isin(y, {NL}))))").format(X=X, OLDP=OLDP, OL=OL, P=P, NL=NL),
+                  ).format(X=X, OLDP=OLDP, OL=OL, P=P, NL=NL),
         raises=raises or {},
         modifies=["%s._parent_node" % X,
                   "%s if not isnone(%s)" % (OL, OLDP),
                   "%s if not isnone(%s)" % (NL, P),
-                  "Node.g_pos[*] if not isnone(%s) or not isnone(%s)" % (OLDP, P)],
+                  "Node.g_pos[*] if not isnone(%s) or not isnone(%s)" % (OLDP, P),
+                  "Node.g_owner[*] if not isnone(%s) or not isnone(%s)" % (OLDP, P)],
         ensures={
             "parent-set": "{X}._parent_node == {P}".format(X=X, P=P),
             "left-old-parent": ("implies(not isnone(old({OLDP})) and old({OLDP}) != {P}, "
@@ -63,7 +66,7 @@ def reparent_contract(target, X, P, raises=None):
             "same-parent": ("implies(not isnone({P}) and old({OLDP}) == {P}, listinv({NL}) and isin({X}, {NL}) "
                             "and length({NL}) == old(length({NL})) + ite(old(isin({X}, {NL})), 0, 1))").format(X=X, OLDP=OLDP, NL=NL, P=P),
             "other-lists-untouched": "lists_frame('Node', {OL}, {NL})".format(OL=OL, NL=NL),
-            "ghost-frame": "pos_frame({OL}, {NL})".format(OL=OL, NL=NL),
+            "ghost-frame": "pos_frame({OL}, {NL}, {X})".format(OL=OL, NL=NL, X=X),
         },
     )
 
@@ -73,13 +76,15 @@ CONTRACTS = [
         ND + ":Node.add_child", types={"node": "ref:Node", "return": "ref:Node"},
         # the two asserts are documented preconditions
         requires="node != self and self._parent_node != node and listinv(%s)" % CH,
-        modifies=["node._parent_node", "self._child_nodes"],
+        modifies=["node._parent_node", "self._child_nodes", "Node.g_pos[*]", "Node.g_owner[*]"],
         ensures={
             "parent-set": "node._parent_node == self",
             "returns-node": "result == node",
             "list-invariant": "listinv(%s)" % CH,
             "is-child-exactly-once": "isin(node, %s)" % CH,
             "already-a-child: list unchanged": "implies(old(isin(node, {L})), same_list({L}, old({L})))".format(L=CH),
+            "other-lists-untouched": "lists_frame('Node', %s)" % CH,
+            "ghost-frame": "pos_frame(%s, node)" % CH,
             "new child: appended at the end": "implies(not old(isin(node, {L})), length({L}) == old(length({L})) + 1 and at({L}, old(length({L}))) == node "
                                               "and forall_int(lambda k: implies(0 <= k and k < old(length({L})), at({L}, k) == at(old({L}), k))))".format(L=CH),
         },
@@ -87,11 +92,14 @@ CONTRACTS = [
     Contract(
         ND + ":Node.insert_child", types={"index": "int", "node": "ref:Node", "return": "opt ref:Node"},
         requires="listinv(%s)" % CH,
-        modifies=["node._parent_node", "self._child_nodes"],
+        modifies=["node._parent_node", "self._child_nodes", "Node.g_pos[*]", "Node.g_owner[*]"],
         ensures={
             "parent-set": "node._parent_node == self",
             "list-invariant": "listinv(%s)" % CH,
             "is-child-exactly-once": "isin(node, %s)" % CH,
+            "new child: inserted exactly at index": "implies(not old(isin(node, {L})) and 0 <= index and index <= old(length({L})), list_insert({L}, index, node))".format(L=CH),
+            "other-lists-untouched": "lists_frame('Node', %s)" % CH,
+            "ghost-frame": "pos_frame(%s, node)" % CH,
             "length": "length({L}) == old(length({L})) + ite(old(isin(node, {L})), 0, 1)".format(L=CH),
             "members-kept": "forall_ref('Node', lambda m: implies(old(isin(m, {L})), isin(m, {L})))".format(L=CH),
             "no-other-new-member": "forall_ref('Node', lambda m: implies(isin(m, {L}) and m != node, old(isin(m, {L}))))".format(L=CH),
@@ -106,7 +114,7 @@ CONTRACTS = [
         ND + ":Node.remove_child", types={"node": "ref:Node", "suppress_unifurcations": "bool", "return": "ref:Node"},
         # contract of the plain removal; the suppress_unifurcations=True branches are composite operations (T2)
         requires="not suppress_unifurcations and listinv({L}) and node._edge != None and node._edge._head_node == node".format(L=CH),
-        modifies=["node._parent_node", "self._child_nodes", "Node.g_pos[*]"],
+        modifies=["node._parent_node", "self._child_nodes", "Node.g_pos[*]", "Node.g_owner[*]"],
         raises={"ValueError": "not isin(node, %s)" % CH},
         ensures={
             "parent-cleared": "isnone(node._parent_node)",
@@ -133,11 +141,10 @@ CONTRACTS = [
         # the only way Tree.reseed_at calls it: the tail of the edge is a parentless node (the current
         # root, or the head of the edge inverted just before); node/edge pairing holds for both ends
         requires=("not isnone({H}) and not isnone({T}) and isnone({T}._parent_node) and {H} != {T} "
-                  "and listinv({T}._child_nodes) and listinv({H}._child_nodes) and isin({H}, {T}._child_nodes) and not isin({T}, {H}._child_nodes) "
-                  "and {H}._edge == self and not isnone({T}._edge) and {T}._edge._head_node == {T} and {T}._edge != self "
-                  "and forall_ref('Node', lambda y: not (isin(y, {T}._child_nodes) and isin(y, {H}._child_nodes)))").format(H=H, T=T),
+                  "and listinv({T}._child_nodes) and listinv({H}._child_nodes) and isin({H}, {T}._child_nodes) and not isin({T}, {H}._child_nodes) and not isin({T}, {T}._child_nodes) and not isin({H}, {H}._child_nodes) "
+                  "and {H}._edge == self and not isnone({T}._edge) and {T}._edge._head_node == {T} and {T}._edge != self").format(H=H, T=T),
         modifies=["{H}._parent_node".format(H=H), "{T}._parent_node".format(T=T), "{T}._child_nodes".format(T=T), "{H}._child_nodes".format(H=H),
-                  "Node.g_pos[*]", "self.length", "{T}._edge.length".format(T=T)],
+                  "Node.g_pos[*]", "Node.g_owner[*]", "self.length", "{T}._edge.length".format(T=T)],
         allowed_raises=(),
         ensures={
             "head-becomes-parentless": "isnone(old({H})._parent_node)".format(H=H),
@@ -148,7 +155,43 @@ CONTRACTS = [
             "other-lists-untouched": "lists_frame('Node', {T}._child_nodes, {H}._child_nodes)".format(H=H, T=T),
             # C07: the two lengths are exchanged, so the length labelling of the undirected edge set is preserved
             "lengths-swapped": "eq(self.length, old({T}._edge.length)) and eq(old({T}._edge).length, old(self.length))".format(T=T),
-            "ghost-frame": "pos_frame({T}._child_nodes, {H}._child_nodes)".format(H=H, T=T),
+            "ghost-frame": "pos_frame({T}._child_nodes, {H}._child_nodes, {T}, {H})".format(H=H, T=T),
+        },
+    ),
+    Contract(
+        ED + ":Edge.collapse", types={"adjust_collapsed_head_children_edge_lengths": "bool"},
+        requires=("not isnone({D}) and implies(not isnone({P}), {D} != {P} and listinv({P}._child_nodes) and listinv({D}._child_nodes) and isin({D}, {P}._child_nodes) "
+                  "and not isnone({D}._edge) and {D}._edge._head_node == {D} "
+                  "and forall_int(lambda k: implies(0 <= k and k < length({D}._child_nodes), not isnone(at({D}._child_nodes, k)._edge) and at({D}._child_nodes, k) != {P})))").format(D=D, P=P),
+        modifies=["Node._parent_node[*]", "{P}._child_nodes if not isnone({P})".format(P=P), "Node.g_pos[*]", "Node.g_owner[*]", "Edge.length[*]"],
+        raises={"ValueError": "not isnone({P}) and length({D}._child_nodes) == 0".format(D=D, P=P)},
+        inline=("child_nodes",),
+        locals={"pos": "int"},
+        loops={0: Loop(
+            invariant=("listinv(parent._child_nodes) and pos == pre(pos) + loop_index() "
+                       "and length(parent._child_nodes) == pre(length(parent._child_nodes)) + loop_index() "
+                       "and forall_int(lambda k: implies(0 <= k and k < pre(pos), at(parent._child_nodes, k) == at(pre(parent._child_nodes), k))) "
+                       "and forall_int(lambda j: implies(0 <= j and j < loop_index(), at(parent._child_nodes, pre(pos) + j) == at(children, j) and at(children, j)._parent_node == parent)) "
+                       "and forall_int(lambda k: implies(pre(pos) <= k and k < pre(length(parent._child_nodes)), at(parent._child_nodes, k + loop_index()) == at(pre(parent._child_nodes), k))) "
+                       "and forall_int(lambda j: implies(loop_index() <= j and j < length(children), not isin(at(children, j), parent._child_nodes))) "
+                       "and isnone(to_del._parent_node) and 0 <= pre(pos) and pre(pos) <= pre(length(parent._child_nodes)) "
+                       "and pre(pos) == old({D}.g_pos) and parent == old({P}) and to_del == old({D}) "
+                       "and forall_int(lambda k: implies(old({D}.g_pos) < k and k < old(length({P}._child_nodes)), "
+                       "at(parent._child_nodes, k - 1 + loop_index()) == at(old({P}._child_nodes), k))) "
+                       "and lists_frame('Node', {P}._child_nodes)").format(D=D, P=P),
+            modifies=["Node._parent_node[*]", "parent._child_nodes", "Node.g_pos[*]", "Node.g_owner[*]", "Edge.length[*]"])},
+        ensures={
+            "root-edge: nothing happens": "implies(isnone(old({P})), True)".format(P=P),
+            "head-detached": "implies(not isnone(old({P})), isnone(old({D})._parent_node))".format(D=D, P=P),
+            "length": "implies(not isnone(old({P})), length(old({P})._child_nodes) == old(length({P}._child_nodes)) + old(length({D}._child_nodes)) - 1)".format(D=D, P=P),
+            "list-invariant": "implies(not isnone(old({P})), listinv(old({P})._child_nodes))".format(P=P),
+            "children-spliced-in-place": ("implies(not isnone(old({P})), forall_int(lambda j: implies(0 <= j and j < old(length({D}._child_nodes)), "
+                                          "at(old({P})._child_nodes, old({D}.g_pos) + j) == at(old({D}._child_nodes), j) "
+                                          "and at(old({D}._child_nodes), j)._parent_node == old({P}))))").format(D=D, P=P),
+            "siblings-before-unchanged": ("implies(not isnone(old({P})), forall_int(lambda k: implies(0 <= k and k < old({D}.g_pos), "
+                                          "at(old({P})._child_nodes, k) == at(old({P}._child_nodes), k))))").format(D=D, P=P),
+            "siblings-after-shifted": ("implies(not isnone(old({P})), forall_int(lambda k: implies(old({D}.g_pos) < k and k < old(length({P}._child_nodes)), "
+                                       "at(old({P})._child_nodes, k + old(length({D}._child_nodes)) - 1) == at(old({P}._child_nodes), k))))").format(D=D, P=P),
         },
     ),
     Contract(ED + ":Edge._get_head_node", types={"return": "opt ref:Node"}, requires="True", ensures={"head": "result == self._head_node"}),
